@@ -15,6 +15,7 @@ import (
 	"runtime"
 	"strings"
 	"sync"
+	"sync/atomic"
 	"time"
 
 	"github.com/opencontainers/go-digest"
@@ -104,6 +105,50 @@ func (d dribbleSeek) Read(p []byte) (int, error) {
 func (d dribbleSeek) Seek(o int64, w int) (int64, error) { return d.r.Seek(o, w) }
 
 type noSeek struct{ r io.Reader }
+
+// watch monitors how the client uses the caller's stream: an io.Reader may not be used by two
+// goroutines at once, nor after BlobPut returned. A Read that finds the stream at EOF dwells a moment
+// inside the call (a slow medium), which widens the window in which a second user would overlap.
+type watch struct {
+	r        io.Reader
+	busy     atomic.Int32
+	returned atomic.Bool
+	dwell    bool
+	mu       sync.Mutex
+	misuse   []string
+}
+
+func (w *watch) enter(op string) {
+	if w.returned.Load() {
+		w.note(op + " after BlobPut returned")
+	}
+	if w.busy.Add(1) > 1 {
+		w.note(op + " while another call on the stream was in progress")
+	}
+}
+func (w *watch) leave() { w.busy.Add(-1) }
+func (w *watch) note(s string) {
+	w.mu.Lock()
+	w.misuse = append(w.misuse, s)
+	w.mu.Unlock()
+}
+func (w *watch) Read(p []byte) (int, error) {
+	w.enter("Read")
+	defer w.leave()
+	n, err := w.r.Read(p)
+	if w.dwell && n == 0 && err == io.EOF {
+		time.Sleep(2 * time.Millisecond)
+	}
+	return n, err
+}
+
+type watchSeek struct{ *watch }
+
+func (w watchSeek) Seek(o int64, wh int) (int64, error) {
+	w.enter("Seek")
+	defer w.leave()
+	return w.r.(io.Seeker).Seek(o, wh)
+}
 
 func (n noSeek) Read(p []byte) (int, error) { return n.r.Read(p) }
 
@@ -233,6 +278,24 @@ func runCase(c Case) {
 		src = dribbleSeek{bytes.NewReader(content)}
 	}
 	seekable := c.Source == "seek" || c.Source == "dribble-seek"
+	wsrc := &watch{r: src, dwell: c.I%2 == 0}
+	if seekable {
+		src = watchSeek{wsrc}
+	} else {
+		src = wsrc
+	}
+	defer func() {
+		wsrc.mu.Lock()
+		defer wsrc.mu.Unlock()
+		run.Count("source_streams_watched", 1)
+		if len(wsrc.misuse) > 0 {
+			dst := "registry"
+			if c.Dir {
+				dst = "layout"
+			}
+			run.Violation(fmt.Sprintf("source-stream-misused/%s/%s", dst, strings.Fields(wsrc.misuse[0])[0]), "the caller's stream was used "+wsrc.misuse[0]+" (the io.Reader contract allows neither; the bytes a replayed upload then reads are undefined)", map[string]any{"case": c, "misuse": wsrc.misuse})
+		}
+	}()
 	ctx, cancel := context.WithTimeout(context.Background(), 8*time.Second)
 	defer cancel()
 
@@ -241,6 +304,7 @@ func runCase(c Case) {
 		defer os.RemoveAll(dir)
 		rc := rcx.New(nil, rcx.Opts{})
 		got, err := rc.BlobPut(ctx, rcx.DirRef(dir, ""), d, src)
+		wsrc.returned.Store(true)
 		l := la.Layout{Dir: dir}
 		judge(c, d, got, err, actual, content, mismatch, !mismatch, func(dg string) ([]byte, bool) { return l.Blob(dg) }, 0, nil)
 		return
@@ -283,6 +347,7 @@ func runCase(c Case) {
 		defer c2()
 	}
 	got, err := rc.BlobPut(ctx, rcx.Ref(h, "proj/repo", ""), d, src)
+	wsrc.returned.Store(true)
 	w.WaitIdle()
 	if os.Getenv("VERIF_ONLY") != "" {
 		for _, e := range w.Log() {
@@ -431,9 +496,18 @@ func main() {
 		}(wk)
 	}
 	wg.Wait()
+	earlyReplies()
 	for _, rep := range ev.RaceReports(filepath.Join(os.Getenv("VERIF_BIN"), "race")) {
-		if strings.Contains(rep, "scheme/reg.(*Reg).blob") {
-			run.Violation("race/blob-upload", "data race in the upload path", rep)
+		if strings.Contains(rep, "scheme/reg.(*Reg).blob") || strings.Contains(rep, "scheme/reg.(*Reg).BlobPut") {
+			fp := "race/blob-upload/other"
+			switch {
+			case strings.Contains(rep, "bytes.(*Reader)") && !strings.Contains(rep, "blobPutUploadChunked") && strings.Contains(rep, "transferWriter"):
+				// the caller's *bytes.Reader itself (sent unwrapped) is rewound while the transport still reads it
+				fp = "race/blob-upload/in-memory-source-rewound-while-sending"
+			case strings.Contains(rep, "transferWriter"):
+				fp = "race/blob-upload/request-body-reused-while-sending"
+			}
+			run.Violation(fp, "data race in the upload path", rep)
 		} else {
 			run.Count("unattributed_race_reports", 1)
 		}
